@@ -696,6 +696,97 @@ def caller_sites(repo, handler_keys):
     return out
 
 
+# (3) attributes the transport thread clears vs attributes caller-thread code dereferences:
+#     a public method doing `self.auth_handler.wait_for_response(..)` after run() ended must not find
+#     None there (AttributeError instead of the saved SSHException).
+
+def thread_clears(repo, tree, handler_fns):
+    """Attribute names X with `self.X = None` / `del self.X` in code run by the transport thread
+    (Transport.run, the message handlers of the transport classes and what they call on self),
+    plus anything assigned in run()'s shutdown epilogue (after the except ladder)."""
+    _, run = tree.method(("transport.py", "Transport"), "run")
+    fns = {id(run): run}
+    todo = [run] + [fn for (k, fn) in handler_fns if k[0] == "transport.py"]
+    while todo:
+        fn = todo.pop()
+        if id(fn) in fns and fn is not run:
+            continue
+        fns[id(fn)] = fn
+        for n in ast.walk(fn):
+            if (isinstance(n, ast.Call) and isinstance(n.func, ast.Attribute) and isinstance(n.func.value, ast.Name)
+                    and n.func.value.id == "self"):
+                for ck in (("transport.py", "Transport"), ("transport.py", "ServiceRequestingTransport")):
+                    k, g = tree.method(ck, n.func.attr)
+                    if g is not None and id(g) not in fns and g.name not in ("run",):
+                        todo.append(g)
+    out = set()
+
+    def self_attr(t):
+        return t.attr if isinstance(t, ast.Attribute) and isinstance(t.value, ast.Name) and t.value.id == "self" else None
+    for fn in fns.values():
+        for n in ast.walk(fn):
+            if isinstance(n, ast.Assign) and isinstance(n.value, ast.Constant) and n.value.value is None:
+                for t in n.targets:
+                    for x in (t.elts if isinstance(t, ast.Tuple) else [t]):
+                        if self_attr(x):
+                            out.add(self_attr(x))
+            elif isinstance(n, ast.Delete):
+                for t in n.targets:
+                    if self_attr(t):
+                        out.add(self_attr(t))
+    # epilogue of run(): everything after the inner try inside the outer try
+    outer = [s_ for s_ in run.body if isinstance(s_, ast.Try)][0]
+    seen_inner = False
+    for s_ in outer.body:
+        if isinstance(s_, ast.Try) and not seen_inner:
+            seen_inner = True
+            continue
+        if seen_inner:
+            for n in ast.walk(s_):
+                if isinstance(n, (ast.Assign, ast.AugAssign)):
+                    for t in (n.targets if isinstance(n, ast.Assign) else [n.target]):
+                        if self_attr(t) and not (isinstance(n, ast.Assign) and isinstance(n.value, ast.Constant)
+                                                 and isinstance(n.value.value, bool)):
+                            out.add(self_attr(t))
+    return sorted(out)
+
+
+def caller_derefs(repo, handler_keys):
+    """Attributes A used as `self.A.x`, `self.A[..]` or `self.A(..)` in transport methods that the
+    application can reach on its own thread."""
+    idx = _functions(repo)
+    roots = [(f, c, fn) for name, lst in idx.items() for f, c, fn in lst
+             if c in API_CLASSES and not name.startswith("_") and name != "run"]
+    seen = {}
+    todo = list(roots)
+    while todo:
+        f, c, fn = todo.pop()
+        k = (f, c, fn.name)
+        if k in seen:
+            continue
+        seen[k] = fn
+        for callee in _callees(fn):
+            if callee in ("run", "start"):
+                continue
+            for g in idx.get(callee, []):
+                if (g[0], g[1], g[2].name) in handler_keys:
+                    continue
+                todo.append(g)
+    out = set()
+    for (f, c, name), fn in seen.items():
+        if f != "transport.py" or c not in ("Transport", "ServiceRequestingTransport"):
+            continue
+        for n in ast.walk(fn):
+            base = None
+            if isinstance(n, ast.Attribute):
+                base = n.value
+            elif isinstance(n, ast.Subscript):
+                base = n.value
+            if isinstance(base, ast.Attribute) and isinstance(base.value, ast.Name) and base.value.id == "self":
+                out.add(base.attr)
+    return sorted(out)
+
+
 def extract(repo, lenient=False):
     """lenient: used by the harness when the strict extraction failed, so that its oracle can still run."""
     tree = Tree(repo)
@@ -734,7 +825,16 @@ def extract(repo, lenient=False):
             raise
         problems.append(str(e))
         sites = None
-    return {"handlers": hs, "ladder": lad, "problems": problems, "guards": guards, "sites": sites}
+    try:
+        clears = thread_clears(repo, tree, [(k, fn) for (msg, k, meth, fn) in inventory(tree)])
+        derefs = caller_derefs(repo, hkeys)
+    except Fail as e:
+        if not lenient:
+            raise
+        problems.append(str(e))
+        clears = derefs = None
+    return {"handlers": hs, "ladder": lad, "problems": problems, "guards": guards, "sites": sites,
+            "clears": clears, "derefs": derefs}
 
 
 def _ascii(name):
@@ -780,6 +880,13 @@ def generate(repo):
                                                               _ascii(x["func"]), "true" if x["guarded"] else "false")
                           for x in ex["sites"]))
     out.append("].")
+    out.append("")
+    out.append("(* attributes of the transport that the transport thread sets to None / deletes / reassigns while")
+    out.append("   shutting down: %s *)" % ", ".join(ex["clears"]))
+    out.append("Definition thread_clears : list (list Z) := [%s]." % "; ".join(_ascii(x) for x in ex["clears"]))
+    out.append("(* attributes dereferenced (self.A.x / self.A[..]) by transport methods reachable on the caller's thread: %s *)"
+               % ", ".join(ex["derefs"]))
+    out.append("Definition caller_derefs : list (list Z) := [%s]." % "; ".join(_ascii(x) for x in ex["derefs"]))
     out.append("")
     out.append("Definition run_handler (c : Z * list Z) : list Z := run_parse_in handlers c.")
     out.append("Definition run_ladder (raw : Z) : list Z := run_surface_in ladder raw.")
